@@ -253,6 +253,30 @@ theorem gen_sysDmag_eq_model (atoms : List (V3 K)) (v : M3 K) (px py pz : Bool) 
 theorem gen_pbcSetter_eq_model (value : List Int) : DvectSource.pbcSetter value = pbcSetterArg value := by
   rcases value with _ | ⟨a, _ | ⟨b, _ | ⟨c, _ | ⟨d, t⟩⟩⟩⟩ <;> simp [DvectSource.pbcSetter, pbcSetterArg]
 
+/-- `System.box_set` as it stands in the source — `scale` popped, then in the `scale is True` branch: relative positions
+    read under the OLD cell, `self.box.set(...)` on the Box object the System holds, positions written back under the NEW
+    cell; otherwise only `self.box.set(...)` — is the `sysBoxSet` step of the `World` model (refusals for a missing System
+    / Box included).  Swapping two of the three statements, dropping one, or setting the box in only one branch breaks
+    this obligation. -/
+theorem gen_sysBoxSet_eq_model (w : World K) (s : Nat) (v : M3 K) (o : V3 K) (scale : Bool) :
+    DvectSource.sysBoxSet w s v o scale = w.step (.sysBoxSet s v o scale) := by
+  unfold DvectSource.sysBoxSet World.step World.sposOf World.boxSetOf World.setSpos
+  cases hs : w.systems[s]? with
+  | none => cases scale <;> simp [hs]
+  | some st =>
+    cases hb : w.boxes[st.box]? with
+    | none =>
+      have hlt : ¬ st.box < w.boxes.length := by
+        intro h; rw [List.getElem?_eq_getElem h] at hb; cases hb
+      cases scale <;> simp [hs, setAt, hlt]
+    | some old =>
+      have hlt : st.box < w.boxes.length := by
+        by_contra h; rw [List.getElem?_eq_none (by omega)] at hb; cases hb
+      cases scale <;> simp [hs, setAt, hlt, List.map_map, Function.comp_def]
+
+/-- `scale` defaults to `False` (absolute positions unchanged). -/
+theorem gen_box_set_scale_default : DvectSource.boxSetScaleDefault = false := rfl
+
 theorem gen_getters_live : DvectSource.systemGettersLive = true := rfl
 
 /-- the three modules consist of imports and exactly the translated functions, and `atomman/core/__init__.py` exports these
